@@ -109,4 +109,153 @@ def mesh (a : List Block) : List Rat := 0 :: a.map (·.zt)
 def expandSeq (inps : List Inp) (a : List Block) : List Block :=
   inps.foldl (fun a i => expandFrom i none 0 a) a
 
+/-! ### `ExpansionData`: prescribed factors stored on one object that is used for successive steps
+
+`setAssembly` builds the linkage, the targets and an EMPTY `_expansionFactors` dict once; every step then
+calls `expansionData.setExpansionFactors(components, expFrac)` and `axiallyExpandAssembly()`.
+A component is named by (block index, index among the block's solids). -/
+
+abbrev Key := Nat × Nat
+
+/-- `ExpansionData._expansionFactors` as an association list, newest assignment first -/
+abbrev Store := List (Key × Rat)
+
+/-- `getExpansionFactor(c)`: `self._expansionFactors.get(c, 1.0)` -/
+def getFactor (s : Store) (ib ic : Nat) : Rat :=
+  match s.find? (fun e => e.1 == (ib, ic)) with
+  | some e => e.2
+  | none => 1
+
+/-- the loop `for c, p in zip(components, expFrac): self._expansionFactors[c] = p`
+(a later entry for the same component overwrites an earlier one; exactly 1.0 is stored like any value) -/
+def assign : Store → List Key → List Rat → Store
+  | s, k :: ks, p :: ps => assign ((k, p) :: s) ks ps
+  | s, _, _ => s
+
+/-- `ExpansionData.setExpansionFactors`; `none` = RuntimeError (different lengths; a factor `<= 0.0`).
+Validation comes first: a refused call stores nothing. -/
+def setExpansionFactors (s : Store) (keys : List Key) (fr : List Rat) : Option Store :=
+  if keys.length ≠ fr.length then none
+  else if fr.any (fun p => decide (p ≤ 0)) then none
+  else some (assign s keys fr)
+
+/-- what `setAssembly` fixes for all later steps: the component linkage and the target components -/
+structure Links where
+  lower : Nat → Nat → Option Nat
+  target : Nat → Option Nat
+
+/-- the inputs `axiallyExpandAssembly` reads through `getExpansionFactor` / `linked` / `isTargetComponent` -/
+def inpOf (L : Links) (s : Store) : Inp := { g := getFactor s, lower := L.lower, target := L.target }
+
+structure RState where
+  store : Store
+  a : List Block
+
+/-- one step on a re-used `ExpansionData`: `setExpansionFactors(keys, fr)` then `axiallyExpandAssembly()`;
+`none` where either raises -/
+def stepReuse (L : Links) (st : RState) (step : List Key × List Rat) : Option RState :=
+  match setExpansionFactors st.store step.1 step.2 with
+  | none => none
+  | some s =>
+    match expand (inpOf L s) st.a with
+    | none => none
+    | some a => some { store := s, a := a }
+
+/-- successive steps on ONE `ExpansionData` (created empty by `setAssembly`) -/
+def runReuse (L : Links) : RState → List (List Key × List Rat) → Option RState
+  | st, [] => some st
+  | st, step :: rest =>
+    match stepReuse L st step with
+    | none => none
+    | some st' => runReuse L st' rest
+
+/-- the other route: a FRESH `ExpansionData` (empty store) for every step -/
+def stepFresh (L : Links) (a : List Block) (step : List Key × List Rat) : Option (List Block) :=
+  match setExpansionFactors [] step.1 step.2 with
+  | none => none
+  | some s => expand (inpOf L s) a
+
+def runFresh (L : Links) : List Block → List (List Key × List Rat) → Option (List Block)
+  | a, [] => some a
+  | a, step :: rest =>
+    match stepFresh L a step with
+    | none => none
+    | some a' => runFresh L a' rest
+
+/-! ### `updateComponentTempsBy1DTempField`: the block-average temperature -/
+
+/-- the scan `for idz, z in enumerate(tempGrid): if zb <= z <= zt: append; if z > zt: break` -/
+def tempsInBlock (zb zt : Rat) : List Rat → List Rat → List Rat
+  | z :: zs, t :: ts =>
+    let here := if zb ≤ z ∧ z ≤ zt then [t] else []
+    if z > zt then here else here ++ tempsInBlock zb zt zs ts
+  | _, _ => []
+
+/-- `mean(tmpMapping)`; `none` = ValueError (no temperature point within the block) -/
+def blockAveTemp (zb zt : Rat) (grid field : List Rat) : Option Rat :=
+  match tempsInBlock zb zt grid field with
+  | [] => none
+  | l => some (l.sum / l.length)
+
+/-- the per-block averages for a whole assembly; `none` = RuntimeError (different lengths) / ValueError -/
+def blockTemps (a : List Block) (grid field : List Rat) : Option (List Rat) :=
+  if grid.length ≠ field.length then none
+  else a.mapM (fun b => blockAveTemp b.zb b.zt grid field)
+
+
+/-! ### thermal factors: `updateComponentTemp`, `updateComponentTempsBy1DTempField`,
+`_perComponentThermalExpansionFactors`, `computeThermalExpansionFactors` -/
+
+/-- the thermal part of `ExpansionData` (solid components only; newest entry first) -/
+structure Thermal where
+  fromInput : Bool                  -- expandFromTinputToThot
+  ref  : List (Key × Rat)           -- componentReferenceTemperature
+  temp : List (Key × Rat)           -- c.temperatureInC
+
+def lookup (l : List (Key × Rat)) (k : Key) : Option Rat := (l.find? (fun e => e.1 == k)).map (·.2)
+
+/-- `updateComponentTemp(c, temp)`: the reference temperature is the current one, then the new one is set -/
+def updateComponentTemp (th : Thermal) (k : Key) (T : Rat) : Thermal :=
+  { th with ref := (k, (lookup th.temp k).getD 0) :: th.ref, temp := (k, T) :: th.temp }
+
+/-- which expansion the material is asked for -/
+inductive FactorSpec where
+  | one                              -- no reference temperature: factor 1.0
+  | fromInputTo (T : Rat)            -- `c.getThermalExpansionFactor()`: input temperature -> T
+  | between (T0 T : Rat)             -- `c.getThermalExpansionFactor(T0=T0)`: T0 -> T
+  deriving DecidableEq, Repr
+
+/-- `_perComponentThermalExpansionFactors(c)` — membership in `componentReferenceTemperature` decides, not the
+value (a reference temperature of exactly 0.0 is a reference temperature) -/
+def factorSpec (th : Thermal) (k : Key) : FactorSpec :=
+  let T := (lookup th.temp k).getD 0
+  if th.fromInput then .fromInputTo T
+  else match lookup th.ref k with
+    | some T0 => .between T0 T
+    | none => .one
+
+/-- the material's answer: `f k T0 T` = expansion of component `k` from `T0` to `T`; `tin k` its input temperature -/
+def evalSpec (f : Key → Rat → Rat → Rat) (tin : Key → Rat) (k : Key) : FactorSpec → Rat
+  | .one => 1
+  | .fromInputTo T => f k (tin k) T
+  | .between T0 T => f k T0 T
+
+/-- `computeThermalExpansionFactors`: the factor of every solid component is (re)computed and stored -/
+def computeThermal (f : Key → Rat → Rat → Rat) (tin : Key → Rat) (th : Thermal) (keys : List Key) (s : Store) : Store :=
+  keys.foldl (fun s k => (k, evalSpec f tin k (factorSpec th k)) :: s) s
+
+/-- `updateComponentTempsBy1DTempField`: the references are reset, then block by block the average temperature
+goes to every component of the block (`keysOf ib` = its solids); `none` where the code raises — by then the
+blocks below have been updated already (the model returns nothing for a refused call) -/
+def updateByField (th : Thermal) (a : List Block) (keysOf : Nat → List Key) (grid field : List Rat) : Option Thermal :=
+  if grid.length ≠ field.length then none
+  else
+    let rec go (th : Thermal) (ib : Nat) : List Block → Option Thermal
+      | [] => some th
+      | b :: rest =>
+        match blockAveTemp b.zb b.zt grid field with
+        | none => none
+        | some T => go ((keysOf ib).foldl (fun th k => updateComponentTemp th k T) th) (ib + 1) rest
+    go { th with ref := [] } 0 a
+
 end ArmiVerif.AxialExp
